@@ -674,6 +674,15 @@ class TermMixin:
         outs.append((st.fork(), Enum(base.ty, (base.variants[1],), "cut")))
         return outs
 
+    def _havoc_deep(self, cur):
+        if isinstance(cur, Cont):
+            self.hv += 1
+            n = "len(hv%d)" % self.hv
+            self.declare(n, 0, self.len_max)
+            self.len_syms.add(n)
+            return Cont(cur.kind, "hv%d" % self.hv, Lin.sym(n), cur.elem, None, cur.ty)
+        return self.M.havoc_like(cur)
+
     def default_call(self, st, fr, f, args, site):
         """Unknown external callee: total, havocs what its &mut arguments point to, returns top."""
         for a in args:
@@ -683,6 +692,21 @@ class TermMixin:
                     self.M.write_path(st, a.loc, a.path, self.M.havoc_like(cur))
             elif isinstance(a, Slice) and isinstance(a.base, tuple) and a.base[0] == "loc":
                 pass
+            elif isinstance(a, Fn):
+                # a closure handed to code we do not model may be called any number of times: whatever it captured
+                # by mutable reference is unknown afterwards
+                for it in a.items:
+                    if it[0] == "closure" and it[2] is not None:
+                        env = st.locs.get(it[2])
+                        if isinstance(env, Struct):
+                            for fld in env.fields:
+                                if isinstance(fld, Ref):
+                                    cur = self.M.read_path(st, fld.loc, fld.path)
+                                    if isinstance(cur, Ref):
+                                        fld = cur
+                                        cur = self.M.read_path(st, fld.loc, fld.path)
+                                    if cur is not None and (fld.mut or isinstance(cur, Cont)):
+                                        self.M.write_path(st, fld.loc, fld.path, self._havoc_deep(cur))
         t = site["term"]
         ti = self.place_ty(site["fr"], t["dest"])
         if ti is None:
